@@ -477,7 +477,9 @@ func (m *MetaOp) GetCollectionNameByID(ctx context.Context, id int64) string {
 	}
 	return ""
 }
-func (m *MetaOp) GetAllDroppedObj() map[string]map[string]uint64 { return map[string]map[string]uint64{} }
+func (m *MetaOp) GetAllDroppedObj() map[string]map[string]uint64 {
+	return map[string]map[string]uint64{}
+}
 
 // ---------------------------------------------------------------- writer
 
